@@ -199,6 +199,18 @@ def _table() -> dict[str, dict[str, Any]]:
             add(f"dot_general_contract_l{lc}_r{rc}_square", (lambda lc, rc: lambda a, b: lax.dot_general(a, b, dn(lc, rc)))(lc, rc), {"square_3x3": [A33, B33]})
     add("dot_general_contract_l0_r0_nonsquare", lambda a, b: lax.dot_general(a, b, dn(0, 0)), {"2x3_2x4": [A23, B24]})
     add("dot_general_batch", lambda a, b: lax.dot_general(a, b, (((2,), (1,)), ((0,), (0,)))), {"batch": [x3, np.transpose(x3, (0, 2, 1)).copy()]})
+    # batched contractions with the batch / contracting axes in every position (distinct extents B=2, M=5, K=3, N=7)
+    import itertools as _it
+
+    _L = np.linspace(-1.0, 1.0, 2 * 5 * 3).astype(F32).reshape(2, 5, 3)  # (B, M, K)
+    _R = np.linspace(1.0, -0.5, 2 * 3 * 7).astype(F32).reshape(2, 3, 7)  # (B, K, N)
+    for lp in _it.permutations(range(3)):
+        for rp in ((0, 1, 2), (1, 2, 0), (2, 0, 1), (2, 1, 0)):
+            la, ra = np.transpose(_L, lp).copy(), np.transpose(_R, rp).copy()
+            dnb = (((lp.index(2),), (rp.index(1),)), ((lp.index(0),), (rp.index(0),)))
+            add(f"dot_general_layout_l{''.join(map(str, lp))}_r{''.join(map(str, rp))}", (lambda dnb: lambda a, b: lax.dot_general(a, b, dnb))(dnb), {"batched": [la, ra]})
+    add("dot_general_two_batch_axes", lambda a, b: lax.dot_general(a, b, (((3,), (2,)), ((1, 0), (1, 0)))), {"batched": [np.linspace(-1, 1, 2 * 3 * 4 * 5).astype(F32).reshape(2, 3, 4, 5), np.linspace(1, -1, 2 * 3 * 5 * 2).astype(F32).reshape(2, 3, 5, 2)]})
+    add("dot_general_two_contracting_axes", lambda a, b: lax.dot_general(a, b, (((1, 2), (2, 0)), ((), ()))), {"operands": [np.linspace(-1, 1, 2 * 3 * 4).astype(F32).reshape(2, 3, 4), np.linspace(1, -1, 4 * 5 * 3).astype(F32).reshape(4, 5, 3)]})
     add("dot_general_batch_contract_first", lambda a, b: lax.dot_general(a, b, (((1,), (1,)), ((0,), (0,)))), {"batch": [x3, x3 * 0.5]})
     for eq in ("ij,kj->ik", "ji,jk->ik", "ij,ij->i", "ijk,ikl->ijl", "ijk,jil->kl", "ii->i", "ij->ji", "ijk->kji", "i,j->ij", "bij,bjk->bik"):
         shp = {"i,j->ij": [np.arange(3, dtype=F32), np.arange(4, dtype=F32)], "ii->i": [A33], "ij->ji": [A23], "ijk->kji": [x3]}
